@@ -36,7 +36,7 @@ PROPS = {
 }
 
 PROPS["C02"] = {
-    "lean": ["WsVerif.Props.C02", "WsVerif.Bridge.C02"],
+    "lean": ["WsVerif.Props.C02", "WsVerif.Bridge.C02", "WsVerif.Bridge.Bodies"],
     "rule": "ws.Cipher on the grid len 0..80 x 12 offsets (0..9, 2^31, 2^62+3) x slice alignment 0..7 x 4 keys (incl. the zero key) "
             "plus random long payloads; CipherReader under transport chunkings 0..18, caller buffer schedules, EOF / failing transport, "
             "data arriving together with the error; CipherWriter write sequences with a short destination accept and caller-slice "
@@ -81,7 +81,7 @@ PROPS["C03"] = {
 }
 
 PROPS["C07"] = {
-    "lean": ["WsVerif.Props.C07", "WsVerif.Props.C07Stream", "WsVerif.Props.C07Install", "WsVerif.Props.C07End", "WsVerif.Props.C07ReadMessage", "WsVerif.Props.C07ReadMessageFrag", "WsVerif.Props.C04ReadData", "WsVerif.Props.C04ReadDataSkip", "WsVerif.Props.C04DiscardText", "WsVerif.Bridge.C07", "WsVerif.Bridge.C04"],
+    "lean": ["WsVerif.Props.C07", "WsVerif.Props.C07Stream", "WsVerif.Props.C07Install", "WsVerif.Props.C07End", "WsVerif.Props.C07ReadMessage", "WsVerif.Props.C07ReadMessageFrag", "WsVerif.Props.C04ReadData", "WsVerif.Props.C04ReadDataSkip", "WsVerif.Props.C04DiscardText", "WsVerif.Bridge.C07", "WsVerif.Bridge.C04", "WsVerif.Bridge.Bodies"],
     "rule": "Reader wiring: 16 (quick) / 316 (thorough) text payloads (valid, truncated, overlong, surrogate, > U+10FFFF) under EVERY split into "
             "three fragments, with and without ping/pong (non-UTF-8 payloads) between the fragments, followed on the same reader by a binary "
             "message holding invalid UTF-8 and another text message; chunkings {whole,1,2,5}; through ReadMessage, ReadData, Reader+ReadAll "
@@ -114,7 +114,7 @@ PROPS["C07"] = {
 }
 
 PROPS["C06"] = {
-    "lean": ["WsVerif.Props.C06", "WsVerif.Props.C06Flush", "WsVerif.Props.C06Sessions", "WsVerif.Bridge.C06"],
+    "lean": ["WsVerif.Props.C06", "WsVerif.Props.C06Flush", "WsVerif.Props.C06Sessions", "WsVerif.Bridge.C06", "WsVerif.Bridge.Bodies"],
     "rule": "Operation sequences over Write/WriteThrough/FlushFragment/Flush/ReadFrom/Grow (+ DisableFlush, SetExtensions, ResetOp): "
             "exhaustive to depth 3 over an alphabet of sizes {0,1,avail-1,avail,avail+1,2*avail} relative to the buffer, for 4 (quick) / 8 "
             "(thorough) constructors x both sides; buffers of every size 126..136 and 65536..65550 filled to avail-1/avail/avail+1 with "
@@ -216,7 +216,7 @@ PROPS["C08"] = {
 }
 
 PROPS["C13"] = {
-    "lean": ["WsVerif.Props.C13", "WsVerif.Props.C13History", "WsVerif.Props.C05Ext", "WsVerif.Bridge.C13"],
+    "lean": ["WsVerif.Props.C13", "WsVerif.Props.C13History", "WsVerif.Props.C05Ext", "WsVerif.Bridge.C13", "WsVerif.Bridge.Bodies"],
     "rule": "MessageState.SetBits / UnsetBits (+ SetBit / UnsetBit / IsCompressed) on all compressed x Fin x RSV(0..7) x OpCode(0..15); "
             "writer sequences of compressed / uncompressed messages with SetExtensions switches x 5 buffer sizes x both sides (also in the "
             "C06 random sequences); reader with the extension attached on a fragmented message with every RSV pattern on the first frame, the "
@@ -446,7 +446,7 @@ PROPS["C12"] = {
 }
 
 PROPS["C18"] = {
-    "lean": ["WsVerif.Props.C18", "WsVerif.Props.C06Sessions", "WsVerif.Props.C04ReadDataSkip", "WsVerif.Props.C08ReadData", "WsVerif.Props.C14", "WsVerif.Bridge.C18"],
+    "lean": ["WsVerif.Props.C18", "WsVerif.Props.C06Sessions", "WsVerif.Props.C04ReadDataSkip", "WsVerif.Props.C08ReadData", "WsVerif.Props.C14", "WsVerif.Bridge.C18", "WsVerif.Bridge.Bodies"],
     "rule": "Differential: an instance is driven through a history, reset, driven through an `after` sequence; a freshly constructed instance "
             "with the same configuration is driven through the same `after` sequence; both observations (every result, every destination "
             "write) must be equal. wsutil.Writer.Reset: 11 histories (unflushed data, several fragments, flushed message, Grow, extension "
@@ -591,7 +591,7 @@ PROPS["C17"] = {
 
 
 PROPS["C19"] = {
-    "lean": ["WsVerif.Props.C19", "WsVerif.Bridge.C19"],
+    "lean": ["WsVerif.Props.C19", "WsVerif.Bridge.C19", "WsVerif.Bridge.Bodies"],
     "race_binary": True,
     "rule": "N sessions (2, 8, 16; thorough: up to 64) on their own goroutines and in-memory connections, GOMAXPROCS 1/4/16, in a binary "
             "built with -race (harness/cmd/wsrace): zero-copy Upgrader with Protocol/Negotiate/Extension callbacks and ws.Upgrade "
